@@ -297,11 +297,6 @@ pub fn run_case<T: Node + ?Sized>(header_line: &str, hdr: &Header, src: &mut dyn
         _ => dead = true,
     }
     let mut levels: Vec<Vec<Step>> = vec![vec![]];
-    // per live level: relative (Elem-free) paths of ulist/umap nodes one of whose elements was taken
-    // through this level's pointer tree; `hazard` = such a node was then shrunk while the level stayed
-    // live inside another ulist/umap (input class of the stale-inner-pointer panic)
-    let mut taken: Vec<Vec<Vec<Step>>> = vec![vec![]];
-    let mut hazard = false;
     let mut orc = Oracle { cx, shape: shape.clone(), model: init, muted: false, failed: false };
     if dead {
         orc.fail("panic", "creating the top accessor failed".into());
@@ -409,8 +404,7 @@ pub fn run_case<T: Node + ?Sized>(header_line: &str, hdr: &Header, src: &mut dyn
             Err(msg) => {
                 orc.cx.rec.op(&line, "panic");
                 orc.cx.rec.bump("outcome:panic");
-                let class = if hazard && msg.contains("Inner pointer invariant violated") { "ulist_stale_inner_after_shrink" } else { "panic" };
-                orc.fail(class, format!("op `{line}` panicked: {msg}"));
+                orc.fail("panic", format!("op `{line}` panicked: {msg}"));
                 dead = true;
                 continue;
             }
@@ -421,42 +415,17 @@ pub fn run_case<T: Node + ?Sized>(header_line: &str, hdr: &Header, src: &mut dyn
             continue;
         }
         // bookkeeping of live levels
-        {
-            let cur = taken.last_mut().unwrap();
-            let elem_free = |p: &[Step]| !p.iter().any(|s| matches!(s, Step::Elem(_)));
-            match &ol.op {
-                Op::Enter(Step::Elem(_)) => cur.push(vec![]),
-                Op::UTouch(_) | Op::UMInsert(_) | Op::UMInsertArr(..) if elem_free(&ol.path) => cur.push(ol.path.clone()),
-                _ => {}
-            }
-            if let Some(pos) = ol.path.iter().position(|s| matches!(s, Step::Elem(_))) {
-                cur.push(ol.path[..pos].to_vec());
-            }
-            let nested = base.iter().any(|s| matches!(s, Step::Elem(_)));
-            if nested
-                && matches!(impl_out, Out::Ok(_))
-                && matches!(ol.op, Op::Remove(_) | Op::RemoveRange(..) | Op::Pop | Op::Clear | Op::UMRemove(_))
-                && elem_free(&ol.path)
-                && cur.contains(&ol.path)
-            {
-                hazard = true;
-            }
-        }
         match (&plan, &impl_out) {
             (Plan::Enter(s, _), Out::Ok(_)) => {
                 let mut p = base.clone();
                 p.push(*s);
                 levels.push(p);
-                taken.push(vec![]);
             }
             (Plan::Leave, _) => {
                 levels.pop();
-                taken.pop();
             }
             (Plan::Reborrow, _) => {
                 levels.truncate(1);
-                taken.truncate(1);
-                taken[0].clear();
                 if stack.is_empty() {
                     dead = true;
                 }
